@@ -21,6 +21,10 @@ from common import *
 for f in sorted(os.listdir(EXTRACT)):
     m = re.fullmatch(r"Extract_(\w+)\.v", f)
     if m:
-        print("extracted driver:", build_extracted(m.group(1)))
+        try:
+            print("extracted driver:", build_extracted(m.group(1)))
+        except BuildError as e:
+            # the check that needs this driver rebuilds it and reports the failure; setup goes on
+            print("extracted driver %s did not build: %s" % (m.group(1), str(e)[-300:]))
 PY
 echo setup done
